@@ -384,6 +384,9 @@ def _define_raw_metadata(global_meta, composite_meta, include_meta,
     metadata = {}
     for key, value in all_meta.items():
         try:
+            if key == 'text':
+                # text is kept verbatim (it may consist of digits only)
+                raise ValueError
             value = float(value)
             if value.is_integer():
                 value = int(value)
